@@ -94,6 +94,13 @@ def _compile_worker(args):
                 out = out[0]
             q1 = RL.sql_text(out)
             q2 = RL.sql_text(out)
+            if q1 is not None and q1 == q2 and "(SELECT" in q1:
+                # every build compiles a fresh clone (new UUIDs): an order taken from a set of UUIDs
+                # shows only in some builds, and only where a subquery selects several columns
+                for _ in range(6):
+                    q2 = RL.sql_text(out)
+                    if q2 != q1:
+                        break
             if q1 is None:
                 res["dialects"][dname] = "no-sql"  # passed through collect()
                 continue
